@@ -71,6 +71,8 @@ def run():
     # different sizes): the evidence of the continued run is judged like any other
     cells.append(dict(target="gauss2", N=128, n_total=1024, mode="vec", kernel="tpcn", resample="syst", clustering=False, continue_with=512))
     cells.append(dict(target="gauss2", N=256, n_total=1024, mode="vec", kernel="rwm", resample="mult", clustering=False, continue_with=64))
+    # prior transform written for one point, parameter by parameter (the documentation's idiom for non-trivial priors)
+    cells.append(dict(target="gauss2", N=128, n_total=1024, mode="scalar", kernel="rwm", resample="syst", clustering=False, xstyle="indexed"))
     Nmax = max(Ns)
     store = {}
 
